@@ -126,9 +126,27 @@ def extremum_is_total(call, crate=None):
     pids = []
     for p in clo["params"]:
         b = list(pat_bindings(p))
-        if p.get("k") != "Bind" or len(b) != 1:
+        if len(b) != 1:
             return False
         pids.append(b[0]["local"])
+    # a closure that only forwards its two entries to a function: read that function
+    body0 = strip(clo["body"])
+    while body0.get("k") == "Block" and not body0["stmts"] and body0.get("e"):
+        body0 = strip(body0["e"])
+    if body0.get("k") == "Call" and crate is not None and len(body0["args"]) == 2 and [peel_refs(a).get("local") for a in body0["args"]] in (pids, pids[::-1]):
+        f0 = strip(body0["f"])
+        d = crate.dfn(f0.get("def")) if f0.get("k") == "Path" else None
+        g = FN_INDEX.get((d.get("krate"), d.get("raw"))) if d else None
+        if g is not None and len(g["params"]) == 2:
+            return extremum_is_total({"name": call["name"], "args": [{"k": "Closure", "params": g["params"], "body": g["body"]}]}, crate)
+    # `let (class_a, weight_a) = a;` : the first component of an entry under its own name
+    firsts = {}
+    for n in walk(clo["body"]):
+        if n.get("k") == "LetStmt" and n.get("init") is not None and n["pat"].get("k") == "Tuple" and n["pat"]["pats"]:
+            i0 = peel_refs(n["init"])
+            if i0.get("k") == "Path" and i0.get("local") in pids:
+                for b in pat_bindings(n["pat"]["pats"][0]):
+                    firsts[b["local"]] = i0["local"]
 
     def first_of(n):
         n = peel_refs(n)
@@ -136,6 +154,8 @@ def extremum_is_total(call, crate=None):
             b = peel_refs(n["e"])
             if b.get("k") == "Path" and b.get("local") in pids:
                 return b["local"]
+        if n.get("k") == "Path" and n.get("local") in firsts:
+            return firsts[n["local"]]
         return None
     has_then = False
     key_cmp = False
